@@ -14,7 +14,8 @@ def rand_member_or_not(rng, ref, nmax):
         lvl = sorted(RC.level(ref, n))
         if lvl:
             return list(lvl[rng.randrange(len(lvl))])
-    if r < 0.6:
+    if r < 0.7:
+        # a basis element itself (the permutations a half-pruned level would wrongly contain)
         it = ref[rng.randrange(len(ref))]
         return list(it[1])
     return common.rand_perm(rng, n)
